@@ -93,13 +93,19 @@ HARNESSES += [
         tdefs={'PRESENCE': _presence(8), 'OVERRIDES': 15, 'CHECKS': '0x1c'}),
     _hb('c10_base_pv_ctor', 'B abstract (pure virtual f only); A without f or overriding it: is_default_constructible / '
         'is_copy_constructible of A', {'PRESENCE': _presence(8), 'OVERRIDES': 2, 'CHECKS': '0x03'}, cap=900, tiers=('quick', 'thorough'),
-        tdefs={'PRESENCE': _presence(8), 'OVERRIDES': 15, 'CHECKS': '0x03'}),
+        tdefs={'PRESENCE': _presence(8), 'OVERRIDES': 3, 'CHECKS': '0x03'}),
     _hb('c10_base_puredtor', 'B { virtual ~B() = 0; int m; } (no other special member), A : public B without own destructor',
         {'PRESENCE': _presence(4), 'OVERRIDES': 1, 'DTKINDS': '0x10'}, cap=600, tiers=('quick', 'thorough')),
-    _hb('c10_base_pv2', 'B abstract with one more special member (incl. a pure virtual destructor); A with and without the overrider',
-        {'PRESENCE': _presence(9, 12), 'OVERRIDES': 3}),
-    _hb('c10_base_one', 'B with at most one special member, A without f', {'PRESENCE': _presence(0, 1, 2, 4), 'OVERRIDES': 1}),
-    _hb('c10_base_two', 'B with two special members, A without f', {'PRESENCE': _presence(3, 5, 6), 'OVERRIDES': 1}),
+] + [
+    # one catalogue entry per presence pattern of B: several patterns in one query exceeded 40 min
+    _hb('c10_base_pv2_%d' % _p, 'B abstract with one more special member (incl. a pure virtual destructor), presence pattern %d; A with and '
+        'without the overrider' % _p, {'PRESENCE': _presence(_p), 'OVERRIDES': 3}) for _p in (9, 12)
+] + [
+    _hb('c10_base_one_%d' % _p, 'B with at most one special member (presence pattern %d), A without f' % _p,
+        {'PRESENCE': _presence(_p), 'OVERRIDES': 1}) for _p in (0, 1, 2, 4)
+] + [
+    _hb('c10_base_two_%d' % _p, 'B with two special members (presence pattern %d), A without f' % _p,
+        {'PRESENCE': _presence(_p), 'OVERRIDES': 1}) for _p in (3, 5, 6)
 ]
 
 # The oracle of these harnesses (harness/c10_oracle.h) is hand-written, so it is validated against the compiler:
